@@ -7,6 +7,29 @@ Proof. unfold upd. rewrite N.eqb_refl. reflexivity. Qed.
 Lemma upd_other s p v q : q <> p -> upd s p v q = s q.
 Proof. unfold upd. intros H. destruct (N.eqb_spec q p); [contradiction|reflexivity]. Qed.
 
+Lemma resolve_nonlink fuel s p : (forall q, s p <> Some (Link q)) -> resolve fuel s p = Some p.
+Proof.
+  intros H. destruct fuel; cbn [resolve]; destruct (s p) as [[t|q|]|] eqn:E; try reflexivity;
+    exfalso; apply (H q); reflexivity.
+Qed.
+Lemma read_file s p t : s p = Some (File t) -> read s p = Some t.
+Proof.
+  intros H. unfold read. rewrite resolve_nonlink by (intros q Hq; rewrite H in Hq; discriminate Hq).
+  rewrite H. reflexivity.
+Qed.
+Lemma read_absent s p : s p = None -> read s p = None.
+Proof.
+  intros H. unfold read. rewrite resolve_nonlink by (intros q Hq; rewrite H in Hq; discriminate Hq).
+  rewrite H. reflexivity.
+Qed.
+Lemma is_dir_upd_other s p v q : q <> p -> is_dir (upd s p v) q = is_dir s q.
+Proof. intros H. unfold is_dir. rewrite upd_other by exact H. reflexivity. Qed.
+
+Lemma some_inj (A : Type) (a b : A) : Some a = Some b -> a = b.
+Proof. intros H. congruence. Qed.
+Arguments interrupt : simpl never.
+Arguments resolve : simpl never.
+
 Section Proofs.
 Variable tmp_of bk_of : path -> path.
 Variable f : path.
@@ -15,101 +38,199 @@ Hypothesis tmp_ne_f : tmp_of f <> f.
 Hypothesis bk_ne_f : bk_of f <> f.
 Hypothesis tmp_ne_bk : tmp_of f <> bk_of f.
 Hypothesis differ : eqb_text orig fmt = false.
-Variable s0 : fsstate.
-Hypothesis f_has_orig : s0 f = Some orig.
+Variable s0 : fsstate.                                  (* ANY state of the siblings: absent, files, links, directories *)
+Hypothesis f_has_orig : s0 f = Some (File orig).
 
-Let ops := backup_ops tmp_of bk_of f orig fmt.
+Local Notation T := (tmp_of f).
+Local Notation B := (bk_of f).
+Local Definition ops := backup_ops tmp_of bk_of f orig fmt.
 
-Lemma ops_eq : ops = [Write (tmp_of f) fmt; Rename f (bk_of f); Rename (tmp_of f) f].
+Lemma ops_eq : ops = [Remove T; Write T fmt; Rename f B; Rename T f].
 Proof. unfold ops, backup_ops. rewrite differ. reflexivity. Qed.
 
-(* the three intermediate states *)
-Let s1 := upd s0 (tmp_of f) (Some fmt).
-Let s2 := upd (upd s1 (bk_of f) (Some orig)) f None.
-Let s3 := upd (upd s2 f (Some fmt)) (tmp_of f) None.
+(* the intermediate states *)
+Local Definition sA := if is_dir s0 T then s0 else upd s0 T None.
+Local Definition sB := upd sA T (Some (File fmt)).
+Local Definition sC := upd (upd sB B (Some (File orig))) f None.
+Local Definition sD := upd (upd sC f (Some (File fmt))) T None.
 
-Lemma run_prefix n : run s0 (firstn n ops) =
-  Some (match n with 0 => s0 | 1 => s1 | 2 => s2 | _ => s3 end).
-Proof.
-  rewrite ops_eq. destruct n as [|[|[|n]]]; cbn [firstn run exec].
-  - reflexivity.
-  - reflexivity.
-  - fold s1. assert (E : s1 f = Some orig) by (unfold s1; rewrite upd_other by auto; exact f_has_orig).
-    rewrite E. reflexivity.
-  - fold s1. assert (E : s1 f = Some orig) by (unfold s1; rewrite upd_other by auto; exact f_has_orig).
-    rewrite E. fold s2.
-    assert (E2 : s2 (tmp_of f) = Some fmt).
-    { unfold s2. rewrite upd_other by auto. rewrite upd_other by auto. unfold s1. apply upd_same. }
-    rewrite E2. fold s3. destruct n; reflexivity.
-Qed.
+Lemma f_ne_T : f <> T. Proof. intros H. apply tmp_ne_f. symmetry. exact H. Qed.
+Lemma f_ne_B : f <> B. Proof. intros H. apply bk_ne_f. symmetry. exact H. Qed.
+Lemma B_ne_T : B <> T. Proof. intros H. apply tmp_ne_bk. symmetry. exact H. Qed.
 
-Lemma inv_s0 : Inv f (bk_of f) orig fmt s0.
-Proof. split; [left; exact f_has_orig|]. intros b H. rewrite f_has_orig in H. inversion H. left; reflexivity. Qed.
-Lemma inv_s1 : Inv f (bk_of f) orig fmt s1.
+Lemma sA_f : sA f = Some (File orig).
+Proof. unfold sA. destruct (is_dir s0 T); [exact f_has_orig|]. rewrite upd_other by exact f_ne_T. exact f_has_orig. Qed.
+Lemma sA_T_nonlink : forall q, sA T <> Some (Link q).
 Proof.
-  assert (E : s1 f = Some orig) by (unfold s1; rewrite upd_other by auto; exact f_has_orig).
-  split; [left; exact E|]. intros b H. rewrite E in H. inversion H. left; reflexivity.
+  intros q. unfold sA. destruct (is_dir s0 T) eqn:E.
+  - unfold is_dir in E. destruct (s0 T) as [[t|l|]|]; try discriminate E. discriminate.
+  - rewrite upd_same. discriminate.
 Qed.
-Lemma inv_s1_partial k : Inv f (bk_of f) orig fmt (upd s0 (tmp_of f) (Some (firstn k fmt))).
+Lemma sA_T_dir : is_dir sA T = is_dir s0 T.
 Proof.
-  assert (E : upd s0 (tmp_of f) (Some (firstn k fmt)) f = Some orig) by (rewrite upd_other by auto; exact f_has_orig).
-  split; [left; exact E|]. intros b H. rewrite E in H. inversion H. left; reflexivity.
+  unfold sA. destruct (is_dir s0 T) eqn:E; [exact E|]. unfold is_dir. rewrite upd_same. reflexivity.
 Qed.
-Lemma inv_s2 : Inv f (bk_of f) orig fmt s2.
+Lemma sA_B_dir : is_dir sA B = is_dir s0 B.
+Proof. unfold sA. destruct (is_dir s0 T); [reflexivity|]. apply is_dir_upd_other. exact B_ne_T. Qed.
+
+Lemma exec_remove : exec s0 (Remove T) = Some sA.
+Proof. reflexivity. Qed.
+Lemma exec_write : exec sA (Write T fmt) = if is_dir s0 T then None else Some sB.
+Proof.
+  unfold exec. rewrite (resolve_nonlink _ _ _ sA_T_nonlink). rewrite sA_T_dir. reflexivity.
+Qed.
+Lemma interrupt_write k : interrupt sA (Write T fmt) k = if is_dir s0 T then sA else upd sA T (Some (File (firstn k fmt))).
+Proof.
+  unfold interrupt. rewrite (resolve_nonlink _ _ _ sA_T_nonlink). rewrite sA_T_dir. reflexivity.
+Qed.
+Lemma sB_f : sB f = Some (File orig).
+Proof. unfold sB. rewrite upd_other by exact f_ne_T. exact sA_f. Qed.
+Lemma exec_rename1 : exec sB (Rename f B) = if is_dir s0 B then None else Some sC.
+Proof.
+  unfold exec. rewrite sB_f. unfold sB at 1. rewrite is_dir_upd_other by exact B_ne_T. rewrite sA_B_dir. reflexivity.
+Qed.
+Lemma sC_T : sC T = Some (File fmt).
+Proof.
+  unfold sC. rewrite upd_other by exact tmp_ne_f. rewrite upd_other by exact tmp_ne_bk. unfold sB. apply upd_same.
+Qed.
+Lemma sC_f : sC f = None.
+Proof. unfold sC. apply upd_same. Qed.
+Lemma sC_B : sC B = Some (File orig).
+Proof. unfold sC. rewrite upd_other by exact bk_ne_f. apply upd_same. Qed.
+Lemma exec_rename2 : exec sC (Rename T f) = Some sD.
+Proof. unfold exec. rewrite sC_T. unfold is_dir. rewrite sC_f. reflexivity. Qed.
+Lemma sD_f : sD f = Some (File fmt).
+Proof. unfold sD. rewrite upd_other by exact f_ne_T. apply upd_same. Qed.
+Lemma sD_B : sD B = Some (File orig).
+Proof. unfold sD. rewrite upd_other by exact B_ne_T. rewrite upd_other by exact bk_ne_f. exact sC_B. Qed.
+
+Lemma inv_of_f s : s f = Some (File orig) -> Inv f B orig fmt s.
+Proof.
+  intros H. pose proof (read_file _ _ _ H) as R. split; [left; exact R|].
+  intros b Hb. rewrite R in Hb. inversion Hb. left; reflexivity.
+Qed.
+Lemma inv_sC : Inv f B orig fmt sC.
 Proof.
   split.
-  - right. unfold s2. rewrite upd_other by auto. apply upd_same.
-  - intros b H. unfold s2 in H. rewrite upd_same in H. discriminate.
+  - right. apply read_file. exact sC_B.
+  - intros b Hb. rewrite (read_absent _ _ sC_f) in Hb. discriminate Hb.
 Qed.
-Lemma inv_s3 : Inv f (bk_of f) orig fmt s3.
+Lemma inv_sD : Inv f B orig fmt sD.
 Proof.
   split.
-  - right. unfold s3. rewrite upd_other by auto. rewrite upd_other by auto.
-    unfold s2. rewrite upd_other by auto. apply upd_same.
-  - intros b H. unfold s3 in H. rewrite upd_other in H by auto. rewrite upd_same in H.
-    inversion H. right; reflexivity.
+  - right. apply read_file. exact sD_B.
+  - intros b Hb. rewrite (read_file _ _ _ sD_f) in Hb. inversion Hb. right; reflexivity.
 Qed.
 
-(* every crash point, including the middle of the write, and every single failing operation *)
+(* the run, prefix by prefix *)
+Lemma run1 : run s0 (firstn 1 ops) = Some sA.
+Proof. rewrite ops_eq. reflexivity. Qed.
+Lemma run2 : run s0 (firstn 2 ops) = if is_dir s0 T then None else Some sB.
+Proof. rewrite ops_eq. cbn [firstn run]. rewrite exec_remove. rewrite exec_write. destruct (is_dir s0 T); reflexivity. Qed.
+Lemma run3 : run s0 (firstn 3 ops) = if is_dir s0 T then None else if is_dir s0 B then None else Some sC.
+Proof.
+  rewrite ops_eq. cbn [firstn run]. rewrite exec_remove. rewrite exec_write. destruct (is_dir s0 T); [reflexivity|].
+  rewrite exec_rename1. destruct (is_dir s0 B); reflexivity.
+Qed.
+Lemma run4 n : run s0 (firstn (4 + n) ops) = if is_dir s0 T then None else if is_dir s0 B then None else Some sD.
+Proof.
+  rewrite ops_eq. cbn [plus firstn run]. rewrite exec_remove. rewrite exec_write. destruct (is_dir s0 T); [reflexivity|].
+  rewrite exec_rename1. destruct (is_dir s0 B); [reflexivity|]. rewrite exec_rename2.
+  destruct n; reflexivity.
+Qed.
+
+(* every crash point, including the middle of the write, and every single failing operation, from ANY state of the
+   sibling paths *)
 Lemma crash_safe_lemma n k started st :
-  stopped_at s0 ops n k started = Some st -> Inv f (bk_of f) orig fmt st.
+  stopped_at s0 ops n k started = Some st -> Inv f B orig fmt st.
 Proof.
-  unfold stopped_at. rewrite run_prefix. rewrite ops_eq.
-  destruct n as [|[|[|n]]]; cbn [nth_error].
-  - intros H; inversion H; subst; clear H. destruct started; cbn [interrupt]; [apply inv_s1_partial|apply inv_s0].
-  - intros H; inversion H; subst; clear H. destruct started; cbn [interrupt]; apply inv_s1.
-  - intros H; inversion H; subst; clear H. destruct started; cbn [interrupt]; apply inv_s2.
-  - replace (nth_error (@nil op) n) with (@None op) by (destruct n; reflexivity).
-    intros H; inversion H; subst; clear H. apply inv_s3.
+  unfold stopped_at. destruct n as [|[|[|[|n]]]].
+  - rewrite ops_eq. cbn [firstn run nth_error interrupt]. intros H; apply some_inj in H; subst st.
+    destruct started; apply inv_of_f; exact f_has_orig.
+  - rewrite run1. rewrite ops_eq. cbn [nth_error]. intros H; apply some_inj in H; subst st.
+    destruct started; [|apply inv_of_f; exact sA_f].
+    rewrite interrupt_write. destruct (is_dir s0 T); apply inv_of_f; [exact sA_f|].
+    rewrite upd_other by exact f_ne_T. exact sA_f.
+  - rewrite run2. destruct (is_dir s0 T); [discriminate|]. rewrite ops_eq. cbn [nth_error interrupt].
+    intros H; apply some_inj in H; subst st. destruct started; apply inv_of_f; exact sB_f.
+  - rewrite run3. destruct (is_dir s0 T); [discriminate|]. destruct (is_dir s0 B); [discriminate|].
+    rewrite ops_eq. cbn [nth_error interrupt]. intros H; apply some_inj in H; subst st. destruct started; exact inv_sC.
+  - change (S (S (S (S n)))) with (4 + n). rewrite run4.
+    destruct (is_dir s0 T); [discriminate|]. destruct (is_dir s0 B); [discriminate|].
+    rewrite ops_eq. replace (nth_error [Remove T; Write T fmt; Rename f B; Rename T f] (4 + n)) with (@None op)
+      by (destruct n; reflexivity).
+    intros H; apply some_inj in H; subst st. exact inv_sD.
 Qed.
 
-Lemma success_post_lemma : exists st, run s0 ops = Some st /\ st f = Some fmt /\ st (bk_of f) = Some orig.
+(* a failing operation stops the run with the state it found: FILE.tmp or FILE.bk is a (non-empty) directory *)
+Lemma failing_op_lemma :
+  (is_dir s0 T = true -> run s0 ops = None /\ stopped_at s0 ops 1 0 false = Some sA) /\
+  (is_dir s0 T = false -> is_dir s0 B = true -> run s0 ops = None /\ stopped_at s0 ops 2 0 false = Some sB).
 Proof.
-  exists s3. split.
-  - pose proof (run_prefix 3) as H. rewrite ops_eq in *. cbn [firstn] in H. exact H.
-  - split.
-    + unfold s3. rewrite upd_other by auto. apply upd_same.
-    + unfold s3. rewrite upd_other by auto. rewrite upd_other by auto.
-      unfold s2. rewrite upd_other by auto. apply upd_same.
+  split.
+  - intros HT. split.
+    + pose proof (run4 0) as H. rewrite ops_eq in *. cbn [plus firstn] in H. rewrite HT in H. exact H.
+    + unfold stopped_at. rewrite run1. rewrite ops_eq. reflexivity.
+  - intros HT HB. split.
+    + pose proof (run4 0) as H. rewrite ops_eq in *. cbn [plus firstn] in H. rewrite HT, HB in H. exact H.
+    + unfold stopped_at. rewrite run2. rewrite HT. rewrite ops_eq. reflexivity.
 Qed.
 
-(* paths other than f, f.tmp, f.bk are never touched, whatever happens *)
+Lemma success_post_lemma : is_dir s0 T = false -> is_dir s0 B = false ->
+  exists st, run s0 ops = Some st /\ st f = Some (File fmt) /\ st B = Some (File orig) /\ st T = None.
+Proof.
+  intros HT HB. exists sD. split.
+  - pose proof (run4 0) as H. rewrite ops_eq in *. cbn [plus firstn] in H. rewrite HT, HB in H. exact H.
+  - split; [exact sD_f|]. split; [exact sD_B|]. unfold sD. apply upd_same.
+Qed.
+
+(* paths other than f, f.tmp, f.bk are never touched, whatever happens and whatever the siblings were *)
 Lemma others_untouched_lemma n k started st q :
-  q <> f -> q <> tmp_of f -> q <> bk_of f ->
+  q <> f -> q <> T -> q <> B ->
   stopped_at s0 ops n k started = Some st -> st q = s0 q.
 Proof.
-  intros H1 H2 H3. unfold stopped_at. rewrite run_prefix. rewrite ops_eq.
-  assert (E1 : s1 q = s0 q) by (unfold s1; apply upd_other; auto).
-  assert (E2 : s2 q = s0 q) by (unfold s2; rewrite !upd_other by auto; exact E1).
-  assert (E3 : s3 q = s0 q) by (unfold s3; rewrite !upd_other by auto; exact E2).
-  destruct n as [|[|[|n]]]; cbn [nth_error].
-  - intros H; inversion H; subst; clear H. destruct started; cbn [interrupt]; [apply upd_other; auto|reflexivity].
-  - intros H; inversion H; subst; clear H. destruct started; cbn [interrupt]; exact E1.
-  - intros H; inversion H; subst; clear H. destruct started; cbn [interrupt]; exact E2.
-  - replace (nth_error (@nil op) n) with (@None op) by (destruct n; reflexivity).
-    intros H; inversion H; subst; clear H. exact E3.
+  intros H1 H2 H3.
+  assert (EA : sA q = s0 q) by (unfold sA; destruct (is_dir s0 T); [reflexivity|apply upd_other; exact H2]).
+  assert (EB : sB q = s0 q) by (unfold sB; rewrite upd_other by exact H2; exact EA).
+  assert (EC : sC q = s0 q) by (unfold sC; rewrite !upd_other by assumption; exact EB).
+  assert (ED : sD q = s0 q) by (unfold sD; rewrite !upd_other by assumption; exact EC).
+  unfold stopped_at. destruct n as [|[|[|[|n]]]].
+  - rewrite ops_eq. cbn [firstn run nth_error interrupt]. intros H; apply some_inj in H; subst st.
+    destruct started; reflexivity.
+  - rewrite run1. rewrite ops_eq. cbn [nth_error]. intros H; apply some_inj in H; subst st.
+    destruct started; [|exact EA].
+    rewrite interrupt_write. destruct (is_dir s0 T); [exact EA|]. rewrite upd_other by exact H2. exact EA.
+  - rewrite run2. destruct (is_dir s0 T); [discriminate|]. rewrite ops_eq. cbn [nth_error interrupt].
+    intros H; apply some_inj in H; subst st. destruct started; exact EB.
+  - rewrite run3. destruct (is_dir s0 T); [discriminate|]. destruct (is_dir s0 B); [discriminate|].
+    rewrite ops_eq. cbn [nth_error interrupt]. intros H; apply some_inj in H; subst st. destruct started; exact EC.
+  - change (S (S (S (S n)))) with (4 + n). rewrite run4.
+    destruct (is_dir s0 T); [discriminate|]. destruct (is_dir s0 B); [discriminate|].
+    rewrite ops_eq. replace (nth_error [Remove T; Write T fmt; Rename f B; Rename T f] (4 + n)) with (@None op)
+      by (destruct n; reflexivity).
+    intros H; apply some_inj in H; subst st. exact ED.
 Qed.
 End Proofs.
+
+Lemma failing_op_stops_lemma : forall (tmp_of bk_of : path -> path) (f : path) (orig fmt : text),
+  tmp_of f <> f -> bk_of f <> f -> tmp_of f <> bk_of f -> eqb_text orig fmt = false ->
+  forall s0 : fsstate, s0 f = Some (File orig) ->
+  (is_dir s0 (tmp_of f) = true -> run s0 (backup_ops tmp_of bk_of f orig fmt) = None /\
+     exists st, stopped_at s0 (backup_ops tmp_of bk_of f orig fmt) 1 0 false = Some st) /\
+  (is_dir s0 (tmp_of f) = false -> is_dir s0 (bk_of f) = true -> run s0 (backup_ops tmp_of bk_of f orig fmt) = None /\
+     exists st, stopped_at s0 (backup_ops tmp_of bk_of f orig fmt) 2 0 false = Some st).
+Proof.
+  intros tmp_of bk_of f orig fmt H1 H2 H3 H4 s0 H5.
+  pose proof (failing_op_lemma tmp_of bk_of f orig fmt) as L.
+  assert (AB : (is_dir s0 (tmp_of f) = true ->
+       run s0 (ops tmp_of bk_of f orig fmt) = None /\ stopped_at s0 (ops tmp_of bk_of f orig fmt) 1 0 false = Some (sA tmp_of f s0)) /\
+      (is_dir s0 (tmp_of f) = false -> is_dir s0 (bk_of f) = true ->
+       run s0 (ops tmp_of bk_of f orig fmt) = None /\ stopped_at s0 (ops tmp_of bk_of f orig fmt) 2 0 false = Some (sB tmp_of f fmt s0)))
+    by (apply L; assumption).
+  destruct AB as [A B].
+  split; [intros HT; destruct (A HT) as [X Y]; split; [exact X|eexists; exact Y]
+         |intros HT HB; destruct (B HT HB) as [X Y]; split; [exact X|eexists; exact Y]].
+Qed.
 
 (* unchanged files: no operation at all *)
 Lemma unchanged_no_ops tmp_of bk_of f t : backup_ops tmp_of bk_of f t t = [].
@@ -118,12 +239,35 @@ Proof. unfold backup_ops. rewrite (proj2 (eqb_text_spec t t) eq_refl). reflexivi
 (* the plain Files emitter is NOT crash safe: a crash in the middle of its single write loses the original *)
 Lemma files_not_crash_safe :
   exists (f bk : path) (orig fmt : text) (s0 : fsstate) st,
-    s0 f = Some orig /\ stopped_at s0 (files_ops f orig fmt) 0 1 true = Some st /\ ~ Inv f bk orig fmt st.
+    s0 f = Some (File orig) /\ stopped_at s0 (files_ops f orig fmt) 0 1 true = Some st /\ ~ Inv f bk orig fmt st.
 Proof.
-  exists 1%N, 2%N, [97%N; 98%N], [99%N; 100%N], (fun q => if N.eqb q 1%N then Some [97%N; 98%N] else None).
+  exists 1%N, 2%N, [97%N; 98%N], [99%N; 100%N], (fun q => if N.eqb q 1%N then Some (File [97%N; 98%N]) else None).
   eexists. split; [reflexivity|]. split; [reflexivity|].
-  intros [[H|H] _]; cbn in H; discriminate.
+  intros [[H|H] _]; vm_compute in H; discriminate.
 Qed.
+
+(* before the repair (no Remove): a stale FILE.tmp that is a symbolic link to FILE itself makes the first write land
+   in FILE; the run "succeeds" and the original is in no file; a link to another file overwrites that file *)
+Definition s0_link_self : fsstate := fun q => if N.eqb q 1%N then Some (File [97%N; 98%N]) else if N.eqb q 2%N then Some (Link 1%N) else None.
+Definition s0_link_other : fsstate := fun q => if N.eqb q 1%N then Some (File [97%N; 98%N]) else if N.eqb q 2%N then Some (Link 9%N)
+                                               else if N.eqb q 9%N then Some (File [120%N]) else None.
+Lemma pre_repair_symlink_loses_original :
+  exists st, run s0_link_self (backup_ops_pre (fun p => (p + 1)%N) (fun p => (p + 2)%N) 1%N [97%N; 98%N] [99%N]) = Some st /\
+             ~ Inv 1%N 3%N [97%N; 98%N] [99%N] st.
+Proof.
+  eexists. split; [vm_compute; reflexivity|]. intros [[H|H] _]; vm_compute in H; discriminate.
+Qed.
+Lemma pre_repair_symlink_touches_other :
+  exists st, run s0_link_other (backup_ops_pre (fun p => (p + 1)%N) (fun p => (p + 2)%N) 1%N [97%N; 98%N] [99%N]) = Some st /\
+             st 9%N <> s0_link_other 9%N.
+Proof. eexists. split; [vm_compute; reflexivity|]. vm_compute. discriminate. Qed.
+(* the same two states under the repaired protocol: invariant kept, other file untouched (instances of the theorems) *)
+Lemma repaired_symlink_examples :
+  (exists st, run s0_link_self (backup_ops (fun p => (p + 1)%N) (fun p => (p + 2)%N) 1%N [97%N; 98%N] [99%N]) = Some st /\
+              read st 1%N = Some [99%N] /\ read st 3%N = Some [97%N; 98%N]) /\
+  (exists st, run s0_link_other (backup_ops (fun p => (p + 1)%N) (fun p => (p + 2)%N) 1%N [97%N; 98%N] [99%N]) = Some st /\
+              st 9%N = s0_link_other 9%N).
+Proof. split; eexists; (split; [vm_compute; reflexivity|]); vm_compute; auto. Qed.
 
 (* ---------------------------------------------------------------------------------------------
    names *)
